@@ -175,8 +175,16 @@ func runSelftest(rs []*Rule, jobs int, filter string) selftestResult {
 	}
 	var sel []Mutant
 	for _, m := range mutants {
-		if filter != "" && !strings.Contains(m.ID, filter) {
-			continue
+		if filter != "" {
+			hit := false
+			for _, part := range strings.Split(filter, ",") {
+				if part != "" && strings.Contains(m.ID, part) {
+					hit = true
+				}
+			}
+			if !hit {
+				continue
+			}
 		}
 		for _, r := range m.Rules {
 			if want[r] {
